@@ -144,11 +144,14 @@ def run(pid, tier, seed):
     lens_pool = [0, 0, 1, 2, 3, 253, 254, 255, 256, 257, 258, 511, 512, 1000]
     hist = []
     for h in range(nh):
-        nf = rng.randint(0, 6)
+        long_stream = (h % 3 == 2)     # many medium frames: kilobytes flow through without the buffer ever being empty
+        nf = rng.randint(8, 30) if long_stream else rng.randint(0, 6)
         frames = []
         for _ in range(nf):
             r = rng.random()
-            if r < 0.04 and tier == "quick" or r < 0.1 and tier != "quick":
+            if long_stream:
+                ln = rng.choice([rng.randint(100, 1500), rng.randint(0, 40), 1460, 512])
+            elif r < 0.04 and tier == "quick" or r < 0.1 and tier != "quick":
                 ln = rng.choice([65535, 65534, 65280, 32768])
             elif r < 0.7:
                 ln = rng.choice(lens_pool)
@@ -172,7 +175,9 @@ def run(pid, tier, seed):
         pos = 0
         while pos < len(stream):
             r = rng.random()
-            if r < 0.3:
+            if long_stream:
+                n = rng.choice([1460, 1460, 5130, 536, rng.randint(1, 3000)])
+            elif r < 0.3:
                 n = 1
             elif r < 0.6:
                 n = rng.randint(1, 4)
